@@ -803,6 +803,11 @@ def run(ctx):
                                    found='%s in %s' % (d, fi.qual))
                     if d in ('open', 'io.open', 'os.open') or d.endswith('.write_text') or d.endswith('.write_bytes') or d.endswith('.open'):
                         n_open += 1
+                        if fi is not etf and d in ('open', 'io.open') and _only_called_from_sinks(p, fi, etf):
+                            ob.evaluations += 1
+                            ob.note('%s opens the file on behalf of the sinks only (every caller is export_to_file / pprint / '
+                                    'export_wallet / export_wasabi)' % fi.qual)
+                            continue
                         if fi is not etf and d == 'os.open' and _only_opener_of(p, fi, etf):
                             ob.evaluations += 1
                             ob.note('%s is the opener= of the open() call in export_to_file (it creates the file that call asks for)' % fi.qual)
@@ -850,6 +855,16 @@ def run(ctx):
         if o.rule == 'C15.FILTER':
             o.rule = 'C20.FILTERED(=C15.FILTER)'
             ctx.obligations.append(o)
+
+
+def _only_called_from_sinks(p, fi, etf):
+    """fi is a helper whose every caller in the package is one of the output sinks of PaperWallet (a shared 'open the target'
+    helper / context manager): the file is still only created on behalf of those sinks"""
+    sinks = {'export_to_file', 'pprint', 'export_wallet', 'export_wasabi'}
+    callers = list(p.callers_of(fi))
+    if not callers:
+        return False
+    return all(cs.caller is not None and cs.caller.cls is etf.cls and cs.caller.name in sinks for cs in callers)
 
 
 def _only_opener_of(p, fi, etf):
